@@ -11,6 +11,7 @@
 import Lomond.Proofs.InflateSym
 import Lomond.Proofs.InflateStored
 import Lomond.Proofs.InflateDyn
+import Lomond.Proofs.InflateRle
 import Lomond.Proofs.DeflateTie
 set_option linter.unusedSimpArgs false
 set_option linter.unusedVariables false
@@ -192,12 +193,95 @@ theorem dyn_body (cont : Bool) {inp : Array Nat} (hwf : ∀ x ∈ inp.toList, x 
         (canonCode ll 256).length = pos + (dynBits final ll dl toks).length by rw [hL]; omega]
     cases final <;> simp [afterBody]
 
+/-- what `rleOk` says: the items expand to literal/length lengths `ll` (there are `nl` of them)
+    followed by distance lengths `dl`, and these are `dynOk` -/
+theorem rleOk_spec (cll : List Nat) (nc nl : Nat) (items : List Item) (toks : List Token)
+    (h : rleOk cll nc nl items toks = true) :
+    ∃ ll dl, expand items = some (ll ++ dl) ∧ ll.length = nl ∧ clOk cll nc = true ∧
+      (∀ it ∈ items, it.ok = true ∧ 1 ≤ cll.getD it.sym 0) ∧ dynOk ll dl toks = true := by
+  unfold rleOk at h
+  cases hex : expand items with
+  | none => rw [hex] at h; simp at h
+  | some lens =>
+    rw [hex] at h
+    simp only [Bool.and_eq_true, List.all_eq_true, decide_eq_true_eq] at h
+    obtain ⟨⟨h1, h2⟩, h3⟩ := h
+    have hd := dynOk_spec _ _ _ h3
+    have hlen : (lens.take nl).length = nl := by
+      have := hd.2.2.1
+      simp only [List.length_drop] at this
+      simp only [List.length_take]
+      omega
+    exact ⟨lens.take nl, lens.drop nl, by rw [List.take_append_drop], hlen, h1, h2, h3⟩
+
+/-- the bits of a block with a run-length coded header, in terms of the two length lists -/
+theorem dynBitsR_eq (final : Bool) (cll : List Nat) (nc : Nat) (items : List Item) (ll dl : List Nat)
+    (toks : List Token) :
+    dynBitsR final cll nc ll.length items (ll ++ dl) toks =
+      [final, false, true] ++ dynHeaderR cll nc ll.length dl.length items ++
+        toks.flatMap (tokBitsG (canonCode ll) (canonCode dl)) ++ canonCode ll 256 := by
+  simp only [dynBitsR, List.take_left', List.drop_left', List.length_append, Nat.add_sub_cancel_left]
+
+/-- a dynamic-Huffman block whose header uses the repeat codes, header included -/
+theorem dynR_body (cont : Bool) {inp : Array Nat} (hwf : ∀ x ∈ inp.toList, x < 256) (wsize fuel pos : Nat)
+    (out : Array Nat) (final : Bool) (cll : List Nat) (nc : Nat) (items : List Item) (ll dl : List Nat)
+    (toks : List Token) (rr : List Bool) (hok : ∀ t ∈ toks, tokOk t)
+    (hcl : clOk cll nc = true) (hit : ∀ it ∈ items, it.ok = true ∧ 1 ≤ cll.getD it.sym 0)
+    (hex : expand items = some (ll ++ dl)) (hdyn : dynOk ll dl toks = true)
+    (hr : Rest inp pos = dynBitsR final cll nc ll.length items (ll ++ dl) toks ++ rr) :
+    blocks cont inp wsize (fuel + 1) pos out =
+      match inflTokens wsize (winOf wsize out) toks with
+      | none => none
+      | some (_, e) => afterBody cont inp wsize fuel final pos
+          (dynBitsR final cll nc ll.length items (ll ++ dl) toks).length (out ++ e.reverse.toArray) := by
+  obtain ⟨hl1, hl2, hd1, hd2, h15, hkl, hkd, heob, hin⟩ := dynOk_spec ll dl toks hdyn
+  obtain ⟨lit, hlit, hlsh⟩ := mkHuff_complete ll false hkl
+  obtain ⟨dist, hdist, hdsh⟩ := mkHuff_complete dl false hkd
+  have cl := code_canon ll false lit hlit hlsh (by omega) (fun l hl => h15 l (by simp [hl]))
+  have cd := code_canon dl false dist hdist hdsh (by omega) (fun l hl => h15 l (by simp [hl]))
+  rw [dynBitsR_eq] at hr ⊢
+  simp only [List.append_assoc, List.cons_append, List.nil_append] at hr
+  have hh := bits_header hwf final false true (r := _) hr
+  have hr3 : Rest inp (pos + 3) = dynHeaderR cll nc ll.length dl.length items ++
+      (toks.flatMap (tokBitsG (canonCode ll) (canonCode dl)) ++ (canonCode ll 256 ++ rr)) :=
+    rest_append (a := [final, false, true]) hr
+  have htab := dynamicTables_rle hwf cll nc items ll dl (pos + 3) _ hcl hit hex hl1 hl2 hd1 hd2 heob lit dist
+    hlit hdist hr3
+  have hr4 := rest_append hr3
+  have hfu : toks.length < 8 * inp.size + 1 := by
+    have := rest_length inp (pos + 3 + (dynHeaderR cll nc ll.length dl.length items).length)
+    rw [hr4] at this
+    simp only [List.length_append] at this
+    have := toksBitsG_length (dc := canonCode dl) cl toks hin
+    omega
+  have hsym := symLoopG_toks cl cd hwf wsize toks hok hin heob (8 * inp.size + 1) _ out rr hfu hr4
+  rw [blocks, hh]
+  simp only [Bool.toNat_true, Bool.toNat_false, Nat.mul_zero, Nat.add_zero, Nat.mul_one]
+  have e1 : (final.toNat + 4) / 2 = 2 := by cases final <;> rfl
+  have e2 : (final.toNat + 4) % 2 = final.toNat := by cases final <;> rfl
+  simp only [e1, e2, if_true, htab, hsym, if_false, Nat.reduceEqDiff]
+  have hL : ([final, false, true] ++ dynHeaderR cll nc ll.length dl.length items ++
+        toks.flatMap (tokBitsG (canonCode ll) (canonCode dl)) ++ canonCode ll 256).length =
+      3 + (dynHeaderR cll nc ll.length dl.length items).length +
+      (toks.flatMap (tokBitsG (canonCode ll) (canonCode dl))).length + (canonCode ll 256).length := by
+    simp only [List.length_append, List.length_cons, List.length_nil]
+  cases inflTokens wsize (winOf wsize out) toks with
+  | none => rfl
+  | some we =>
+    simp only []
+    rw [show pos + 3 + (dynHeaderR cll nc ll.length dl.length items).length +
+        (toks.flatMap (tokBitsG (canonCode ll) (canonCode dl))).length + (canonCode ll 256).length =
+        pos + ([final, false, true] ++ dynHeaderR cll nc ll.length dl.length items ++
+          toks.flatMap (tokBitsG (canonCode ll) (canonCode dl)) ++ canonCode ll 256).length by rw [hL]; omega]
+    cases final <;> simp [afterBody]
+
 theorem bodyBits_length_pos (off : Nat) (k : Kind) (b : Blk) : 3 ≤ (bodyBits off k b).length := by
   unfold bodyBits
   split
   · split <;> simp [storedBits, fixedBits] <;> (try omega)
   · simp [fixedBits]; (try omega)
   · split <;> simp [dynBits, fixedBits] <;> (try omega)
+  · split <;> simp [dynBitsR, fixedBits] <;> (try omega)
 
 theorem blkBits_length_pos (off : Nat) (sb : Kind × Blk) : 3 ≤ (blkBits off sb).length := by
   have := bodyBits_length_pos off sb.1 sb.2
@@ -255,6 +339,17 @@ theorem any_body (cont : Bool) {inp : Array Nat} (hwf : ∀ x ∈ inp.toList, x 
     by_cases hc : dynOk ll dl toks = true
     · simp only [hc, if_true] at hr ⊢
       exact dyn_body cont hwf wsize fuel pos out final ll dl toks rr hok hc hr
+    · simp only [hc, if_false, Bool.false_eq_true] at hr ⊢
+      exact fixed_body cont hwf wsize fuel pos out final toks rr hok hr
+  | dynRle cll nc nl items =>
+    simp only at hr ⊢
+    by_cases hc : rleOk cll nc nl items toks = true
+    · simp only [hc, if_true] at hr ⊢
+      obtain ⟨ll, dl, hex, hnl, hcl, hit, hdyn⟩ := rleOk_spec cll nc nl items toks hc
+      subst hnl
+      rw [hex] at hr ⊢
+      simp only [Option.getD_some] at hr ⊢
+      exact dynR_body cont hwf wsize fuel pos out final cll nc items ll dl toks rr hok hcl hit hex hdyn hr
     · simp only [hc, if_false, Bool.false_eq_true] at hr ⊢
       exact fixed_body cont hwf wsize fuel pos out final toks rr hok hr
 
